@@ -179,8 +179,8 @@ def _unpack_plaintext(data: bytes) -> bytes:
         ) from exc
 
 
-def _compute_call_aad(auth: AuthContext | None) -> bytes:
-    r"""Build the AAD that binds a *call* token to its issuing principal.
+def _compute_call_aad(auth: AuthContext | None, method_name: str | None = None) -> bytes:
+    r"""Build the AAD that binds a *call* token to its issuing principal and method.
 
     Identical in shape to :func:`_compute_aad` but with a distinct
     version-tagged prefix, so a call token and a cursor token are not
@@ -188,14 +188,31 @@ def _compute_call_aad(auth: AuthContext | None) -> bytes:
     other is expected fails the AEAD tag check rather than decoding into a
     payload the reader will misinterpret.
 
+    With ``method_name`` the AAD also names the stream method whose ``/init``
+    minted the token::
+
+        b"vgi_rpc.call.v2\x00" || method_len (uint16 LE) || method || identity_tail
+
+    so the token only opens on that method's own ``/exchange`` route.  A
+    stream's state is interpreted by the state classes of the method being
+    called; tokens minted for another method must not reach them, however
+    similar the two methods' state classes are.  The HTTP server always
+    passes the method name.
+
     Args:
         auth: The authentication context for the current request.
+        method_name: The stream method the token belongs to, or ``None`` for
+            the method-less ``v1`` form.
 
     Returns:
         Associated-data bytes for the AEAD seal/open call.
 
     """
-    prefix = b"vgi_rpc.call.v1\x00"
+    if method_name is None:
+        prefix = b"vgi_rpc.call.v1\x00"
+    else:
+        method = method_name.encode()
+        prefix = b"vgi_rpc.call.v2\x00" + struct.pack("<H", len(method)) + method
     if auth is None or not auth.authenticated:
         return prefix + b"\x00anonymous"
     domain = (auth.domain or "").encode()
@@ -392,9 +409,12 @@ class _ResolvedCall:
     immutable.  The schemas are ``pa.Schema`` (immutable in Arrow); the
     call-state object's immutability is the contract
     :meth:`StreamState.bind_call_state` documents.
+
+    ``method_name`` is the stream method the call belongs to — the one whose
+    ``/init`` minted the call token, or under whose AAD the token was opened.
     """
 
-    __slots__ = ("call_state", "input_schema", "output_schema", "stream_id")
+    __slots__ = ("call_state", "input_schema", "method_name", "output_schema", "stream_id")
 
     def __init__(
         self,
@@ -402,11 +422,13 @@ class _ResolvedCall:
         output_schema: pa.Schema,
         input_schema: pa.Schema,
         stream_id: str,
+        method_name: str = "",
     ) -> None:
         self.call_state = call_state
         self.output_schema = output_schema
         self.input_schema = input_schema
         self.stream_id = stream_id
+        self.method_name = method_name
 
 
 class _CallStateCache:
@@ -423,6 +445,13 @@ class _CallStateCache:
     covers the call id, and its AAD covers the principal.  A client
     therefore cannot steer a lookup toward another principal's entry, and
     cannot present a call id the server did not mint.
+
+    Each entry remembers the method it was resolved for
+    (:attr:`_ResolvedCall.method_name`).  The reader must not serve an entry
+    to a request routed to another method; such a request takes the miss path
+    and has to present a call token that opens under *its* method's AAD (see
+    :func:`_compute_call_aad`) — so a warm cache can never stand in for the
+    method binding the call token carries.
     """
 
     __slots__ = ("_entries", "_lock", "_max_entries", "_ttl")
@@ -477,6 +506,7 @@ def _mint_call_token(
     stream_id: str,
     *,
     now: int | None = None,
+    method_name: str | None = None,
 ) -> tuple[bytes, bytes, bytes]:
     """Serialize and seal a stream's call token.  Called once, by ``/init``.
 
@@ -488,6 +518,8 @@ def _mint_call_token(
         auth: Authenticated identity for AAD binding.
         stream_id: Chain-correlation id.
         now: Override for the baked-in timestamp; default ``time.time()``.
+        method_name: The stream method being initialised; bound into the
+            token's AAD so that only this method's ``/exchange`` opens it.
 
     Returns:
         ``(token, call_id, call_state_bytes)``.  ``call_id`` must be threaded
@@ -505,7 +537,7 @@ def _mint_call_token(
         call_id,
         stream_id,
         token_key,
-        _compute_call_aad(auth),
+        _compute_call_aad(auth, method_name),
         int(time.time()) if now is None else now,
     )
     return token, call_id, call_state_bytes
